@@ -473,8 +473,9 @@ def ltb_contract(assumed=True):
                              'minimal': 'imp(all_of(blocksize == 0, ival(n) > 0), all_of(nth(result, 0) != 0, ival(n) >= pow2(8 * (len(result) - 1))))',
                              'fixed': 'imp(all_of(blocksize > 0, ival(n) < pow2(8 * blocksize)), all_of(len(result) == blocksize, result == i2osp(ival(n), blocksize)))'},
                     modifies=[],
-                    assumed=('bounded: bounded/number.py against int.to_bytes (NOT PROVED: list.insert(0, ...) in loops with a symbolic '
-                             'trip count is outside the PYVC list abstractions)') if assumed else None)
+                    assumed=('these clauses are PROVED for python-int arguments (unit number.long_to_bytes, C14); used here as the contract '
+                             'seen by callers, where n may also be an Integer object (value ival(n): the function only applies & >> '
+                             'comparisons and struct.pack to it) -- for Integer-object arguments assumed; bounded: bounded/number.py') if assumed else None)
 
 
 def use_lean_number_contracts(reg):
